@@ -31,7 +31,7 @@ SPECS = [None, "meter", "U:second", "=A", "=B", "=A*B", "=A**2"]
 VALUES = ["2 meter", "300 centimeter", "5 second", "7"]
 # 1-2 parameters: additionally the dimensionless spec and a SCALED dimensionless value (50 % is the number 0.5)
 SPECS_SMALL = SPECS + ["", "U:", "S:dimensionless", "S:km"]
-VALUES_SMALL = VALUES + ["50 percent"]
+VALUES_SMALL = VALUES + ["50 percent", "0 meter", "0 second", "0"]
 UNITDIM = {"meter": "L", "centimeter": "L", "second": "T", "percent": None, "kilometer": "L"}
 FAC = {"meter": Fraction(1), "centimeter": Fraction(1, 100), "second": Fraction(1), "percent": Fraction(1, 100), "kilometer": Fraction(1000)}
 
@@ -44,21 +44,21 @@ def call(fn):
 
 
 def parse_value(ureg, v):
-    if v == "7":
-        return 7
+    if v in ("7", "0"):
+        return int(v)
     m, u = v.split()
     return ureg.Quantity(int(m), u)
 
 
 def val_units(v):
     """{unit: exp} of a value literal ({} for bare)"""
-    if v == "7":
+    if v in ("7", "0"):
         return {}
     return {v.split()[1]: 1}
 
 
 def val_mag(v):
-    return 7 if v == "7" else int(v.split()[0])
+    return int(v) if v in ("7", "0") else int(v.split()[0])
 
 
 def dims(units):
@@ -138,10 +138,10 @@ def model_wraps(specs, bound, strict):
             recv[i] = ("mag", Fraction(val_mag(bound[i])) * factor(vu) / factor(target))
     for i, (k, p) in enumerate(cl):
         if k == "unit":
-            if bound[i] == "7":
+            if bound[i] in ("7", "0"):
                 if strict:
                     return ("exc", "ValueError")
-                recv[i] = ("same", "7")
+                recv[i] = ("same", bound[i])
             else:
                 vu = val_units(bound[i])
                 tu = {p: 1} if p else {}
@@ -187,8 +187,8 @@ def call_forms(n, ndefaults):
 def same_received(ureg, got, exp):
     kind, payload = exp
     if kind == "same":
-        if payload == "7":
-            return got == 7 and not hasattr(got, "_units")
+        if payload in ("7", "0"):
+            return got == int(payload) and not hasattr(got, "_units")
         q = parse_value(ureg, payload)
         return hasattr(got, "_units") and dict(got._units) == dict(q._units) and got.magnitude == q.magnitude
     return (not hasattr(got, "_units")) and Fraction(got) == payload
@@ -375,7 +375,7 @@ def run_returns(acc):
 
 CHECK_SPECS = [None, "[length]", "[time]", "[length]/[time]", "meter"]
 CHECK_DIM = {"[length]": {"L": 1}, "[time]": {"T": 1}, "[length]/[time]": {"L": 1, "T": -1}, "meter": {"L": 1}}
-CHECK_VALUES = ["2 meter", "300 centimeter", "5 second", "7", "3 meter/second"]
+CHECK_VALUES = ["2 meter", "300 centimeter", "5 second", "7", "3 meter/second", "0 meter", "0 second", "0"]
 
 
 def run_check(acc, n):
@@ -405,7 +405,7 @@ def run_check(acc, n):
             w = o[1]
             for npos, kwi, omitted in call_forms(n, ndef):
                 free = [i for i in range(n) if i not in omitted]
-                alpha = CHECK_VALUES if n <= 2 else CHECK_VALUES[1:]
+                alpha = CHECK_VALUES if n <= 2 else CHECK_VALUES[1:5]
                 for combo in itertools.product(alpha, repeat=len(free)):
                     bound = [default_value] * n
                     for i, v in zip(free, combo):
